@@ -96,7 +96,7 @@ EXPORT errno_t _memcpy16_s_chk(uint16_t *dest, rsize_t dmax,
     }
     CHK_DEST_MEM_NULL("memcpy16_s")
     CHK_DMAX_MEM_ZERO("memcpy16_s")
-    smax = slen * 2;
+    smax = SAFEC_MUL_SAT(slen, 2);
     if (destbos == BOS_UNKNOWN) {
         CHK_DMAX_MEM_MAX("memcpy16_s", RSIZE_MAX_MEM)
         BND_CHK_PTR_BOUNDS(dest, dmax);
